@@ -55,6 +55,8 @@ def ma_world(rng, n_agents=None, numeric=None, extra_random=True) -> gen.W:
     if rng.random() < 0.5:
         A.append({"name": "sweep", "params": [("?a", "ag"), ("?l", "loc")], "pre": ["and", ["at", "?a", "?l"]],
                   "eff": ["and", ["forall", ["?x", "-", "item"], ["when", ["and", ["on", "?x", "?l"]], ["done", "?x"]]]]})
+        A.append({"name": "archive", "params": [("?a", "ag"), ("?i", "item")], "pre": ["and", ["done", "?i"], ["free", "?a"]],
+                  "eff": ["and", ["not", ["done", "?i"]], ["open"]]})
     rng.shuffle(A)
     keep = max(4, int(len(A) * rng.uniform(0.6, 1.0)))
     A = sorted(A[:keep], key=lambda a: a["name"])
